@@ -57,11 +57,13 @@ Record deviations := mkDev {
                                      'def' line (CPython: the decorator's line) *)
   d_with_swallow : bool;     (* D186 ast_with: an exception raised while evaluating a with-item (before any manager was
                                      entered) is swallowed - nothing is reported and execution continues after the with *)
-  d_import_sticky : bool     (* D187 module-level code of an imported module (failing at import) keeps the importer's
+  d_import_sticky : bool;    (* D187 module-level code of an imported module (failing at import) keeps the importer's
                                      file name and current function *)
+  d_lambda_name : bool       (* D190 a lambda is compiled as a function named __lambda_defn_temp__: its frame carries that
+                                     name instead of <lambda> *)
 }.
-Definition all_off : deviations := mkDev false false false false false false.
-Definition as_is : deviations := mkDev true true true true true true.
+Definition all_off : deviations := mkDev false false false false false false false.
+Definition as_is : deviations := mkDev true true true true true true true.
 
 (* ---------- mini language ---------- *)
 Inductive nkind := NkPlain | NkAttr | NkDeco.
@@ -80,7 +82,13 @@ Definition node_ps_line (dv : deviations) (n : node) : line :=
 
 Inductive callee := CFunc (k : nat) | CMod (k : nat).
 
+(* one CPython frame of natively compiled script code (@pyscript_compile, @pyscript_executor, lambda): file, co_name in
+   CPython, co_name under pyscript (differs for lambdas), line.  Native code runs under CPython in both worlds, so its own
+   traceback entries are data, not something the interpreter model computes *)
+Definition nentry : Type := (fileid * nameid * nameid * line).
+
 Inductive expr :=
+  | ENative (n : node) (es : list nentry)                 (* call at node n of a native script function that raises with frames es *)
   | EAtom (n : node)                                      (* evaluates without fault and without user calls *)
   | EFault (n : node)                                     (* this node's own evaluation raises *)
   | EOp (n : node) (subs : list expr) (fault : bool)      (* compound node: sub-expressions in order, then its own operation *)
@@ -135,6 +143,7 @@ Fixpoint g_list {X A} (ev : A -> res X) (l : list A) : res X :=
 
 Record alg (X : Type) := mkAlg {
   x_raise : ctxinfo -> act -> node -> X;                  (* the node's own evaluation raises *)
+  x_native : ctxinfo -> act -> node -> list nentry -> X;  (* a natively compiled script function called at the node raises *)
   x_node : ctxinfo -> act -> node -> X -> X;              (* passes out through an enclosing node of the same activation *)
   x_call : ctxinfo -> act -> node -> efunc -> X -> X;     (* leaves the callee's activation through the caller's call node *)
   x_import : ctxinfo -> act -> node -> emod -> X -> X;    (* leaves an imported module's body through the import node *)
@@ -144,7 +153,7 @@ Record alg (X : Type) := mkAlg {
   x_enter_mod : emod -> X -> X;                           (* outermost: load_file -> AstEval.eval -> Module *)
   x_enter_func : ctxinfo -> efunc -> bool -> X -> X       (* outermost: the catching site -> [call_func ->] EvalFunc.call *)
 }.
-Arguments x_raise {X}. Arguments x_node {X}. Arguments x_call {X}. Arguments x_import {X}. Arguments x_chain {X}.
+Arguments x_raise {X}. Arguments x_native {X}. Arguments x_node {X}. Arguments x_call {X}. Arguments x_import {X}. Arguments x_chain {X}.
 Arguments x_cause {X}. Arguments x_with_hdr {X}. Arguments x_enter_mod {X}. Arguments x_enter_func {X}.
 
 Section Gen.
@@ -159,6 +168,7 @@ Section Gen.
     | O => RFuel
     | S fu =>
       match e with
+      | ENative n es => RRaise (x_native A cx a n es)
       | EAtom _ => RNormal
       | EFault n => RRaise (x_raise A cx a n)
       | EOp n subs fault =>
@@ -263,8 +273,14 @@ Definition nm_catch_site : nameid := 1%N.
 Definition nm_module_import : nameid := 2%N.
 Definition nm_load_file : nameid := 3%N.
 
+Definition native_frame (dv : deviations) (e : nentry) : frame :=
+  let '(f, pyname, psname, l) := e in FReal f (if d_lambda_name dv then psname else pyname) l.
+Definition native_entry (e : nentry) : triple := let '(f, pyname, _, l) := e in (f, FnNamed pyname, l).
+
 Definition ps_alg (dv : deviations) : alg exc_ps := {|
   x_raise := fun cx a n => [[FAeval cx a (Some (node_ps_line dv n)); FOther]];
+  x_native := fun cx a n es =>
+      [FAeval cx a (Some (node_ps_line dv n)) :: FOther :: FCallFunc None :: map (native_frame dv) es];
   x_node := fun cx a n => on_head (fun F => FAeval cx a (Some (node_ps_line dv n)) :: FOther :: F);
   x_call := fun cx a n f => on_head (fun F =>
       FAeval cx a (Some (node_ps_line dv n)) :: FOther :: FCallFunc (Some (disp_name dv f)) :: FOther
@@ -287,8 +303,11 @@ Definition ps_alg (dv : deviations) : alg exc_ps := {|
 (* ---------- CPython: traceback entries ---------- *)
 Definition py_entry (a : act) (n : node) : triple := (a_file a, a_name a, node_py_line n).
 
+Definition is_script (t : triple) : bool := let '(f, _, _) := t in negb (N.eqb f 0%N).
+
 Definition py_alg : alg exc_py := {|
   x_raise := fun _ a n => [[py_entry a n]];
+  x_native := fun _ a n es => [py_entry a n :: filter is_script (map native_entry es)];
   x_node := fun _ _ _ x => x;
   x_call := fun _ a n _ => on_head (fun T => py_entry a n :: T);
   x_import := fun _ a n _ => on_head (fun T => py_entry a n :: T);
@@ -357,7 +376,6 @@ Definition step (dv : deviations) (st : fstate) (fr : frame) : fstate :=
 Definition run_frames (dv : deviations) (st : fstate) (F : list frame) : fstate := fold_left (step dv) F st.
 Definition format_stack (dv : deviations) (F : list frame) : list triple := rev (s_rstack (run_frames dv init_st F)).
 
-Definition is_script (t : triple) : bool := let '(f, _, _) := t in negb (N.eqb f 0%N).
 Definition script_frames (T : list triple) : list triple := filter is_script T.
 
 (* the whole report: one list of script entries per exception of the cause/context chain (the logged exception first) *)
